@@ -76,6 +76,9 @@ func VH_C07_Execute() {
 	}
 }
 
+var vC07FlagSets = []scriptflag.Flag{0, scriptflag.UTXOAfterGenesis, scriptflag.Bip16 | scriptflag.VerifyCleanStack | scriptflag.VerifyMinimalData | scriptflag.VerifyMinimalIf | scriptflag.DiscourageUpgradableNops | scriptflag.VerifyCheckLockTimeVerify | scriptflag.VerifyCheckSequenceVerify,
+		scriptflag.UTXOAfterGenesis | scriptflag.Bip16 | scriptflag.VerifyMinimalData | scriptflag.VerifySigPushOnly | scriptflag.EnableSighashForkID | scriptflag.VerifyCheckLockTimeVerify}
+
 // C07-E2: the whole pipeline (parse, execute, final check) on arbitrary short scripts.
 func VH_C07_ExecuteScripts() {
 	vunwindCut(vparam("U", 8))
@@ -84,9 +87,7 @@ func VH_C07_ExecuteScripts() {
 	if len(us) == 0 && vnondetBool("us-one") {
 		us = bscript.Script{bscript.Op1} // something for the locking script to work on
 	}
-	flagsets := []scriptflag.Flag{0, scriptflag.UTXOAfterGenesis, scriptflag.Bip16 | scriptflag.VerifyCleanStack | scriptflag.VerifyMinimalData | scriptflag.VerifyMinimalIf | scriptflag.DiscourageUpgradableNops | scriptflag.VerifyCheckLockTimeVerify | scriptflag.VerifyCheckSequenceVerify,
-		scriptflag.UTXOAfterGenesis | scriptflag.Bip16 | scriptflag.VerifyMinimalData | scriptflag.VerifySigPushOnly | scriptflag.EnableSighashForkID | scriptflag.VerifyCheckLockTimeVerify}
-	flags := flagsets[vnondetLen("flagset", 0, len(flagsets)-1)]
+	flags := vC07FlagSets[vnondetLen("flagset", 0, len(vC07FlagSets)-1)]
 	opts := []ExecutionOptionFunc{WithScripts(&ls, &us), WithFlags(flags)}
 	if vparam("DBG", 1) == 1 && vnondetBool("with-debugger") {
 		opts = append(opts, WithDebugger(&vDbg{})) // a recording debugger: every callback takes a snapshot
